@@ -11,6 +11,7 @@
                    value was optimised in this run or read back from an export (shares C09-R3/R4).
  R4 key agreement: every key an element's to_json emits under params / operational is a key its parameter class reads.
  Rp presence      : optional numeric fields are tested with `is None` / membership, never by truthiness (0 is a value).
+ R6 padding cache : the cached design span loss is raised by the att_in of the fibre that was padded (and initialised from span_loss).
 """
 import ast
 
@@ -261,8 +262,35 @@ def r5_handoff(ctx):
     this run or read back from an exported design (shared with C09-R3/R4): the returned (dp, voa), the stored gain and
     offsets are the documented ones"""
     from .c09 import r3_saturation, r4_voa
+    from .c10 import r3_selection
     r3_saturation(ctx)
     r4_voa(ctx)
+    r3_selection(ctx)       # the power reduction applied to dp / gain is the one of the model that was selected (and exported)
+
+
+def r6_padding_cache(ctx):
+    """the span loss cached at design time (design_span_loss, read back by span_loss on every later design) is raised by the
+    padding that was put on the span: the att_in of the SAME fibre whose att_in was just padded"""
+    from ..pattern import find
+    repo = ctx.repo
+    f = repo.func(NW, 'add_fiber_padding')
+    pads = [(n, b) for n, b in find('V_x.params.att_in = E_v', f.node)]
+    incs = [n for n in walk_no_nested(f.node) if isinstance(n, ast.AugAssign) and isinstance(n.op, ast.Add) and
+            isinstance(n.target, ast.Attribute) and n.target.attr == 'design_span_loss']
+    ok = len(pads) == 1 and len(incs) == 1
+    if ok:
+        x = pads[0][1]['V_x']
+        blk = getattr(pads[0][0], '_parent', None)
+        ok = ast.unparse(incs[0].value) == f'{x}.params.att_in' and getattr(incs[0], '_parent', None) is blk and incs[0].lineno > pads[0][0].lineno
+    ctx.check('R6.padding-cache', site(f), ok, key(f, 'padding-cache'),
+              'the cached design span loss is not raised by the att_in of the fibre that was padded (the first fibre of the span): on a span '
+              'of several fused fibres the cache misses the padding, and a re-design of the exported network raises the closing gain')
+    init = [n for n in walk_no_nested(f.node) if isinstance(n, ast.Assign) and isinstance(n.targets[0], ast.Attribute) and
+            n.targets[0].attr == 'design_span_loss' and isinstance(n.value, ast.Name)]
+    sl = {stmt_of(f, c).targets[0].id for c in calls_to(f, {'span_loss'}) if isinstance(stmt_of(f, c), ast.Assign)}
+    ctx.check('R6.padding-cache', f'{site(f)} cache = computed span loss', len(init) == 1 and init[0].value.id in sl, key(f, 'cache-init'),
+              'design_span_loss is not initialised with the span loss computed for that fibre')
+    ctx.need('R6.padding-cache', 2)
 
 
 
@@ -270,4 +298,4 @@ from ..presence import rule_for as _presence_rule
 
 RULES_PRESENCE = ('Rp.presence', _presence_rule('C17', 'a value of exactly 0 would be exported as missing and re-designed on reload'))
 
-RULES = [('R5.handoff', r5_handoff), ('R1.bracket', r1_bracket), ('R2.completeness', r2_completeness), ('R3.fix-point', r3_fixpoints), ('R4.keys', r4_keys), RULES_PRESENCE]
+RULES = [('R5.handoff', r5_handoff), ('R1.bracket', r1_bracket), ('R2.completeness', r2_completeness), ('R3.fix-point', r3_fixpoints), ('R4.keys', r4_keys), RULES_PRESENCE, ('R6.padding-cache', r6_padding_cache)]
